@@ -268,14 +268,24 @@ static void dump_obj(FILE *o, econf_file *kf, int ext) {
 
 static int run_cmd(struct ctx *c, char **t, int nt);
 
-struct thr_arg { struct ctx c; char *script; };
+struct thr_arg { struct ctx c; char *script; int id; };
+/* deterministic call-level schedule (C18 forward replay): sched[pos] = id of the thread that runs its next command */
+static int *sched = NULL; static int sched_len = 0; static volatile int sched_pos = 0;
+static pthread_mutex_t sched_mu = PTHREAD_MUTEX_INITIALIZER; static pthread_cond_t sched_cv = PTHREAD_COND_INITIALIZER;
 static void *thr_main(void *p) {
   struct thr_arg *a = p;
   char *save = NULL;
   for (char *line = strtok_r(a->script, "\n", &save); line; line = strtok_r(NULL, "\n", &save)) {
     char *t[MAXTOK]; int nt = 0; char *s2 = NULL;
     for (char *tk = strtok_r(line, " \t", &s2); tk && nt < MAXTOK; tk = strtok_r(NULL, " \t", &s2)) t[nt++] = tk;
-    if (nt) run_cmd(&a->c, t, nt);
+    if (!nt) continue;
+    if (sched) {
+      pthread_mutex_lock(&sched_mu);
+      while (sched_pos < sched_len && sched[sched_pos] != a->id) pthread_cond_wait(&sched_cv, &sched_mu);
+      pthread_mutex_unlock(&sched_mu);
+    }
+    run_cmd(&a->c, t, nt);
+    if (sched) { pthread_mutex_lock(&sched_mu); sched_pos++; pthread_cond_broadcast(&sched_cv); pthread_mutex_unlock(&sched_mu); }
   }
   return NULL;
 }
@@ -700,10 +710,14 @@ static int run_cmd(struct ctx *c, char **t, int nt) {
 
   /* ----- threads (C18):  threads <n> <file1> ... : each file is a script run by its own thread with a private ctx;
          outputs go to <file>.out ----- */
-  if (!strcmp(op, "threads")) {
+  if (!strcmp(op, "threads")) {   /* threads <n> <schedule|-> <script1> ... : schedule = x<hex> string of thread digits */
     int n = atoi(ARG(1)); pthread_t th[64]; struct thr_arg *a = calloc((size_t)n, sizeof *a);
+    char *sc = tokstr(ARG(2), NULL); free(sched); sched = NULL; sched_len = 0; sched_pos = 0;
+    if (sc && *sc) { sched_len = (int)strlen(sc); sched = malloc(sizeof(int) * (size_t)sched_len); for (int i = 0; i < sched_len; i++) sched[i] = sc[i] - '0'; }
+    free(sc);
     for (int i = 0; i < n && i < 64; i++) {
-      char *p = tokstr(ARG(2 + i), NULL); FILE *f = fopen(p, "rb"); size_t cap = 1 << 16, len = 0; char *buf = malloc(cap);
+      a[i].id = i;
+      char *p = tokstr(ARG(3 + i), NULL); FILE *f = fopen(p, "rb"); size_t cap = 1 << 16, len = 0; char *buf = malloc(cap);
       if (f) { size_t r; while ((r = fread(buf + len, 1, cap - len - 1, f)) > 0) { len += r; if (cap - len < 2) { cap *= 2; buf = realloc(buf, cap); } } fclose(f); }
       buf[len] = 0; a[i].script = buf; a[i].c.cookie = 0x5eed;
       char *op2; if (asprintf(&op2, "%s.out", p) < 0) op2 = NULL; a[i].c.out = fopen(op2, "w"); free(op2); free(p);
